@@ -28,11 +28,7 @@ Print Assumptions C14_pre_filter_is_equijoin_count.
 
 Theorem C14_key_match_meaning :
   forall a b, key_match a b = true <-> exists k, a = Some k /\ b = Some k.
-Proof.
-  intros [x|] [y|]; cbn; split; try discriminate; try (intros (k & H1 & H2); discriminate).
-  - intros H. apply eqk_lex in H. subst. eauto.
-  - intros (k & H1 & H2). injection H1 as ->. injection H2 as ->. apply eqk_lex. reflexivity.
-Qed.
+Proof. exact key_match_iff. Qed.
 Print Assumptions C14_key_match_meaning.
 
 Theorem C14_pre_filter_without_keys :
@@ -56,19 +52,7 @@ Theorem C14_owner_is_first_true_rule :
     owner_is rec 0 rules n l r = true <->
     (exists rk, nth_error rules n = Some rk /\ rk l r = T) /\
     (forall j rj, (j < n)%nat -> nth_error rules j = Some rj -> rj l r <> T).
-Proof.
-  intros rec rules n l r. rewrite owner_is_iff. split.
-  - intros H. apply first_true_least in H. rewrite Nat.sub_0_r in H. tauto.
-  - intros [(rk & Hn & Ht) Hmin].
-    destruct (first_true 0 rules l r) as [m|] eqn:E.
-    + pose proof (first_true_least _ _ _ _ _ _ E) as (_ & (rm & Hm & Htm) & Hlt). rewrite Nat.sub_0_r in *.
-      destruct (Nat.lt_trichotomy m n) as [Hc|[->|Hc]]; [|reflexivity|].
-      * exfalso. eapply Hmin; eauto.
-      * exfalso. eapply Hlt; eauto.
-    + exfalso. assert (Hex : exists rk, In rk rules /\ rk l r = T).
-      { exists rk. split; [eapply nth_error_In; eauto|exact Ht]. }
-      apply (first_true_some_iff _ 0) in Hex. destruct Hex as [m Hm]. congruence.
-Qed.
+Proof. exact owner_is_first_true_rule. Qed.
 Print Assumptions C14_owner_is_first_true_rule.
 
 Theorem C14_cumulative_columns :
